@@ -52,7 +52,10 @@ TMsgs ==
     /\ Is("msgs")
     /\ LET files == E.files
            tab == [f \in DOMAIN files |-> ByteOffsets(files[f])]
-       IN \A i \in 1..Len(E.spans) : SpanOK(files, tab, i, E.spans[i])
+       IN /\ \A i \in 1..Len(E.spans) : SpanOK(files, tab, i, E.spans[i])
+          \* a location line that names only a file names one the run has read
+          /\ \A k \in 1..Len(E.bare) :
+                Verdict("names-a-file-never-read", E.bare[k], \E j \in 1..Len(E.opened) : E.opened[j] = E.bare[k])
 
 TFault ==
     /\ Is("fault")
